@@ -116,10 +116,17 @@ func funcSubStr(kv KVPair, args []Expression, ctx *ExecuteCtx) (any, error) {
 	}
 	length := int(toInt(rarg, 0))
 	vlen := len(val)
+	if start < 0 {
+		start = 0
+	}
 	if start > vlen-1 {
 		return "", nil
 	}
-	length = min(length, vlen-start)
+	// The third parameter is the end position (exclusive), not a length
+	length = min(length, vlen)
+	if length <= start {
+		return "", nil
+	}
 	return val[start:length], nil
 }
 
